@@ -593,8 +593,15 @@ func (e *engine) checkQueryWire(qr *stmt.Query, r *rand.Rand, origin, text strin
 				return
 			}
 			a.count("wire_query_two_hop_leaf_decodes", 1)
-			// planning the decoded statement must give what planning the parsed statement gives
-			if d := diffQuery(planned, lq, timeMask{}); d != nil {
+			// planning the decoded statement must give what planning the parsed statement gives; a statement that
+			// already carries a storage interval was planned by the node that sent it (only planning sets it) and
+			// the intermediate must keep that plan (lindb fix ae161db), not plan the truncated range again
+			expect := planned
+			if qr.StorageInterval > 0 {
+				expect = qr
+				a.count("wire_query_two_hop_statement_already_planned", 1)
+			}
+			if d := diffQuery(expect, lq, timeMask{}); d != nil {
 				w["diff"] = d.String()
 				e.violation(classifyDiff(d, origin+"-two-hop", planned), "two hops (root->intermediate->leaf) deliver a different statement than planning the parsed statement directly: "+d.String(), w)
 				return
